@@ -191,7 +191,7 @@ def rule_rw3(prog):
     for (p, v) in res:
         if isinstance(v, Raise):
             r.fail(Finding(PROP, 'R-RW-3', I.where(v.node, f.module),
-                           f.short(), 'raise', 'LNot raises %r' % (v.exc,)))
+                           f.short(), 'raise', 'LNot raises %r' % (v.exc,)), witness=v)
             continue
         added = 0
         inner = v
@@ -229,7 +229,7 @@ def rule_rw3(prog):
                 PROP, 'R-RW-3', f.where(), f.short(), 'unjustified-strip',
                 'LNot strips the operand of a formula that is not known to '
                 'be a negation (returns %r under %s)' % (
-                    v, desc['path_condition'])))
+                    v, desc['path_condition'])), witness=v)
         else:
             r.ok()
         if (k + added) % 2 != 1:
@@ -239,7 +239,7 @@ def rule_rw3(prog):
                 'LNot returns a formula equivalent to its argument, not to '
                 'its negation: %d negation(s) stripped, %d added (returns '
                 '%r under %s)' % (k, added, v, desc['path_condition']),
-                expected='odd parity', found='%d' % (k + added)))
+                expected='odd parity', found='%d' % (k + added)), witness=v)
         else:
             r.ok()
         # no double leading negation
@@ -250,7 +250,7 @@ def rule_rw3(prog):
                     PROP, 'R-RW-3', f.where(), f.short(), 'leading:strip',
                     'LNot returns %r without knowing that it is not a '
                     'negation itself: the result may begin with two '
-                    'negations' % (v,)))
+                    'negations' % (v,)), witness=v)
             else:
                 r.ok()
         elif kind == 'add':
